@@ -243,7 +243,7 @@ theorem dfStep1_noAbort (rec : P) (m : Mode) (o : Opts) (decl : List FieldDecl) 
     · rename_i e' x' hs
       exact absurd hs (this e' x')
 
-theorem dfStep2_noAbort : NoAbort dfStep2 := by
+theorem dfStep2_noAbort (data : Data) : NoAbort (dfStep2 data) := by
   intro a f e x
   unfold dfStep2
   split
@@ -272,10 +272,10 @@ theorem ffStep2_noAbort (o : Opts) (decl : List FieldDecl) : NoAbort (ffStep2 o 
 
 def reportsDF (rec : P) (m : Mode) (o : Opts) (decl : List FieldDecl) (data : Data) : List Err :=
   (trace (dfStep1 rec m o decl) data ([], [])).1 ++
-  (trace dfStep2 decl (fin (dfStep1 rec m o decl) data ([], [])).1).1
+  (trace (dfStep2 data) decl (fin (dfStep1 rec m o decl) data ([], [])).1).1
 
 def valueDF (rec : P) (m : Mode) (o : Opts) (decl : List FieldDecl) (data : Data) : Data :=
-  fin dfStep2 decl (fin (dfStep1 rec m o decl) data ([], [])).1 ++ (fin (dfStep1 rec m o decl) data ([], [])).2
+  fin (dfStep2 data) decl (fin (dfStep1 rec m o decl) data ([], [])).1 ++ (fin (dfStep1 rec m o decl) data ([], [])).2
 
 def reportsFF (rec : P) (m : Mode) (o : Opts) (decl : List FieldDecl) (data : Data) : List Err :=
   (trace (ffStep1 rec m o data) decl []).1 ++
@@ -346,10 +346,10 @@ theorem dataFirst_ran (rec : P) (mx : Option Nat) (hk : capOk mx 0) (o : Opts) (
   unfold dataFirst reportsDF valueDF
   simp only [clean0_mode, clean0_o]
   refine ran_andThen (runLoop_ran (dfStep1_noAbort rec _ o decl) mx o [] hk data ([], [])) (fun h1 => ?_)
-  have h2 := ran_andThen (b := fin dfStep2 decl (fin (dfStep1 rec ⟨true, mx⟩ o decl) data ([], [])).1 ++
+  have h2 := ran_andThen (b := fin (dfStep2 data) decl (fin (dfStep1 rec ⟨true, mx⟩ o decl) data ([], [])).1 ++
       (fin (dfStep1 rec ⟨true, mx⟩ o decl) data ([], [])).2)
     (k := fun c2 res2 => (c2, Except.ok (res2 ++ (fin (dfStep1 rec ⟨true, mx⟩ o decl) data ([], [])).2)))
-    (runLoop_ran dfStep2_noAbort mx o ([] ++ (trace (dfStep1 rec ⟨true, mx⟩ o decl) data ([], [])).1)
+    (runLoop_ran (dfStep2_noAbort data) mx o ([] ++ (trace (dfStep1 rec ⟨true, mx⟩ o decl) data ([], [])).1)
       (by simpa using h1) decl (fin (dfStep1 rec ⟨true, mx⟩ o decl) data ([], [])).1)
     (fun h2 => ran_pure mx o _ (by simpa using h2) _)
   simpa using h2
